@@ -1,0 +1,125 @@
+//go:build verif
+
+package statesync
+
+// Add-only accessors for the /verif correspondence harness (property C14). Built only with
+// `-tags verif`; nothing here is reachable from production code.
+
+import (
+	"context"
+	"errors"
+	"sort"
+
+	"github.com/tendermint/tendermint/config"
+	"github.com/tendermint/tendermint/libs/log"
+	"github.com/tendermint/tendermint/light"
+	"github.com/tendermint/tendermint/proxy"
+)
+
+type (
+	VerifChunk        = chunk
+	VerifSnapshot     = snapshot
+	VerifChunkQueue   = chunkQueue
+	VerifSnapshotPool = snapshotPool
+	VerifSyncer       = syncer
+)
+
+func VerifNewChunkQueue(s *VerifSnapshot, dir string) (*VerifChunkQueue, error) {
+	return newChunkQueue(s, dir)
+}
+
+func VerifNewSnapshotPool() *VerifSnapshotPool { return newSnapshotPool() }
+
+func VerifNewSyncer(cfg config.StateSyncConfig, logger log.Logger, conn proxy.AppConnSnapshot,
+	connQuery proxy.AppConnQuery, sp StateProvider, tempDir string) *VerifSyncer {
+	return newSyncer(cfg, logger, conn, connQuery, sp, tempDir)
+}
+
+// VerifPool returns the syncer's snapshot pool.
+func (s *syncer) VerifPool() *snapshotPool { return s.snapshots }
+
+// VerifWaiting reports the chunk index a blocked Next() of the active queue is waiting for.
+func (s *syncer) VerifWaiting() (uint32, bool) {
+	s.mtx.RLock()
+	q := s.chunks
+	s.mtx.RUnlock()
+	if q == nil {
+		return 0, false
+	}
+	q.Lock()
+	defer q.Unlock()
+	for idx, w := range q.waiters {
+		if len(w) > 0 {
+			return idx, true
+		}
+	}
+	return 0, false
+}
+
+// VerifNextBlocks reports whether Next() would block, and on which index.
+func (q *chunkQueue) VerifNextBlocks() (uint32, bool) {
+	q.Lock()
+	defer q.Unlock()
+	idx, err := q.nextUp()
+	if err != nil {
+		return 0, false
+	}
+	_, ok := q.chunkFiles[idx]
+	return idx, !ok
+}
+
+// VerifDir returns the queue's temp dir.
+func (q *chunkQueue) VerifDir() string { return q.dir }
+
+// VerifBlacklists returns the three blacklists (sorted; snapshot keys as raw hashes).
+func (p *snapshotPool) VerifBlacklists() (formats []uint32, peers []string, keys [][]byte) {
+	p.Lock()
+	defer p.Unlock()
+	for f := range p.formatBlacklist {
+		formats = append(formats, f)
+	}
+	for id := range p.peerBlacklist {
+		peers = append(peers, string(id))
+	}
+	for k := range p.snapshotBlacklist {
+		k := k
+		keys = append(keys, k[:])
+	}
+	sort.Slice(formats, func(i, j int) bool { return formats[i] < formats[j] })
+	sort.Strings(peers)
+	return formats, peers, keys
+}
+
+// VerifKey returns the snapshot's pool key.
+func (s *snapshot) VerifKey() []byte { k := s.Key(); return k[:] }
+
+// VerifErrClass names the sentinel error wrapped by err.
+func VerifErrClass(err error) string {
+	switch {
+	case err == nil:
+		return "nil"
+	case errors.Is(err, errDone):
+		return "done"
+	case errors.Is(err, errAbort):
+		return "abort"
+	case errors.Is(err, errRetrySnapshot):
+		return "retry-snapshot"
+	case errors.Is(err, errRejectSnapshot):
+		return "reject-snapshot"
+	case errors.Is(err, errRejectFormat):
+		return "reject-format"
+	case errors.Is(err, errRejectSender):
+		return "reject-sender"
+	case errors.Is(err, errVerifyFailed):
+		return "verify-failed"
+	case errors.Is(err, errTimeout):
+		return "timeout"
+	case errors.Is(err, errNoSnapshots):
+		return "no-snapshots"
+	case errors.Is(err, light.ErrNoWitnesses):
+		return "no-witnesses"
+	case errors.Is(err, context.DeadlineExceeded):
+		return "deadline"
+	}
+	return "other"
+}
